@@ -250,7 +250,45 @@ func (x *g) genRequirements(max int) []*spec.Requirement {
 		}
 		out = append(out, req)
 	}
+	// alternatives made of the SAME schemes that differ only in the scopes they require
+	if x.o.Profile == "security" && len(out) > 0 && len(out) <= max && x.chance(1, 2) {
+		base := out[x.r.Intn(len(out))]
+		var pool []string
+		for _, n := range base.Schemes {
+			for _, sc := range x.s.Schemes {
+				if sc.Name == n {
+					for _, sp := range sc.Scopes {
+						if !contains(pool, sp) {
+							pool = append(pool, sp)
+						}
+					}
+				}
+			}
+		}
+		if len(pool) >= 2 {
+			twin := &spec.Requirement{Schemes: append([]string(nil), base.Schemes...)}
+			for _, i := range x.r.Perm(len(pool))[:x.r.Range(1, len(pool)-1)] {
+				twin.Scopes = append(twin.Scopes, pool[i])
+			}
+			if !sameSet(twin.Scopes, base.Scopes) {
+				out = append(out, twin)
+				x.s.AddFeature("same-schemes-different-scopes")
+			}
+		}
+	}
 	return out
+}
+
+func sameSet(a, b []string) bool {
+	if len(a) != len(b) {
+		return false
+	}
+	for _, s := range a {
+		if !contains(b, s) {
+			return false
+		}
+	}
+	return true
 }
 
 func contains(xs []string, s string) bool {
